@@ -14,7 +14,8 @@ RULE = ("Hypothesis-generated parameters for each of the 12 BVLL functions (resu
         "Annex J reference encoder (0x81, function, 16-bit length == len(frame)) or the encoder refuses with EncodingError; "
         "upward decode restores every parameter; DecodingError exactly when the reference rejects (type, length, truncated "
         "body). Non-trivial: table with >= 2 entries, payload >= 1 octet, or a rejected frame that passed the type check. "
-        "Distinct by octets.")
+        "Distinct by octets."
+        " Also: every message built with its parameters assigned after construction.")
 ASSUMPTIONS = [
     "bpverif/ref/bvlc.py transcribes Annex J.2 correctly",
     "well-formed frames with function codes >= 12 are not judged here (the statement does not cover them; C10 does)",
